@@ -268,7 +268,7 @@ def judge_invariance(pid, strict_known_class=None):
             if ob[0] != ov[0]:
                 known = None
                 if in_event_class: known = load_known_text(pid, "kf_same_day_mixed_events")
-                if classes.kf_inexact_ratio_chain(g["base"]) : known = known or load_known_text(pid, "kf_inexact_ratio_chain")
+                if classes.kf_inexact_ratio_chain(g["base"]) or classes.kf_inexact_ratio_chain(g["vars"][n]): known = known or load_known_text(pid, "kf_inexact_ratio_chain")     # the residue site depends on the order of a day's SPLIT / UNSPLIT lines
                 fails.append(("outcome", "%s: base %s vs variant %s" % (n, ob, ov), known)); continue
             if ob[0] != "ok": continue
             a = compare.canon_rust(base["report"]); b = compare.canon_rust(rr["report"])
